@@ -172,10 +172,12 @@ type computerFunc = func(*ComputedStyle, pr.KnownProp, pr.CssProperty) pr.CssPro
 
 // backgroundImage computes lenghts in gradient background-image.
 func backgroundImage(computer *ComputedStyle, _ pr.KnownProp, _value pr.CssProperty) pr.CssProperty {
-	value := _value.(pr.Images)
+	// the declared value is shared by every element the declaration applies to: compute on copies
+	value := append(pr.Images(nil), _value.(pr.Images)...)
 	for i, image := range value {
 		switch gradient := image.(type) {
 		case pr.LinearGradient:
+			gradient.ColorStops = append(pr.ColorsStops(nil), gradient.ColorStops...)
 			for j, cl := range gradient.ColorStops {
 				if !cl.Position.IsNone() {
 					cl.Position = length_(computer, pr.DimOrS{Dimension: cl.Position}, -1, false).Dimension
@@ -184,6 +186,7 @@ func backgroundImage(computer *ComputedStyle, _ pr.KnownProp, _value pr.CssPrope
 			}
 			image = gradient
 		case pr.RadialGradient:
+			gradient.ColorStops = append(pr.ColorsStops(nil), gradient.ColorStops...)
 			for j, cl := range gradient.ColorStops {
 				if !cl.Position.IsNone() {
 					cl.Position = length_(computer, pr.DimOrS{Dimension: cl.Position}, -1, false).Dimension
@@ -323,6 +326,7 @@ func length_(computer *ComputedStyle, value pr.DimOrS, fontSize pr.Float, pixels
 		// Convert absolute lengths to pixels
 		result = value.Value * pr.LengthsToPixels[unit]
 	case pr.Em, pr.Ex, pr.Ch, pr.Rem:
+		ownFontSize := fontSize < 0 // false when the font-size property itself is computed
 		if fontSize < 0 {
 			fontSize = computer.GetFontSize().Value
 		}
@@ -340,7 +344,13 @@ func length_(computer *ComputedStyle, value pr.DimOrS, fontSize pr.Float, pixels
 		case pr.Em:
 			result = value.Value * fontSize
 		case pr.Rem:
-			result = value.Value * computer.rootStyle.fontSize.Value
+			if ownFontSize && computer.isRootElement() {
+				// on the root element, rem refers to its own computed font size
+				// (to the initial value only in font-size itself)
+				result = value.Value * fontSize
+			} else {
+				result = value.Value * computer.rootStyle.fontSize.Value
+			}
 		}
 
 	default:
@@ -461,12 +471,12 @@ func borderImageWidth(_ *ComputedStyle, _ pr.KnownProp, _value pr.CssProperty) p
 
 // Compute the “border-image-outset“ property.
 func borderImageOutset(computer *ComputedStyle, _ pr.KnownProp, _value pr.CssProperty) pr.CssProperty {
-	values := _value.(pr.Values)
+	values := append(pr.Values(nil), _value.(pr.Values)...) // (a copy: the declared value is shared)
 	for i, value := range values {
 		if value.Unit == pr.Scalar {
 			values[i] = value
 		} else {
-			values[i] = length_(computer, value, 0, false)
+			values[i] = length_(computer, value, -1, false)
 		}
 	}
 
@@ -792,7 +802,7 @@ func computeTrackBreadth(computer *ComputedStyle, value pr.DimOrS) pr.DimOrS {
 		if value.Unit == pr.Fr {
 			return value
 		} else {
-			return length_(computer, value, 0, false)
+			return length_(computer, value, -1, false)
 		}
 	}
 }
@@ -830,7 +840,7 @@ func gridTemplate(computer *ComputedStyle, _ pr.KnownProp, _value pr.CssProperty
 
 // Compute the “grid-auto-*“ properties.
 func gridAuto(computer *ComputedStyle, _ pr.KnownProp, _value pr.CssProperty) pr.CssProperty {
-	values := _value.(pr.GridAuto)
+	values := append(pr.GridAuto(nil), _value.(pr.GridAuto)...) // (a copy: the declared value is shared)
 	for i, value := range values {
 		values[i] = computeGridDims(computer, value)
 	}
